@@ -4,4 +4,6 @@ set -e
 cd "$(dirname "$0")"
 export CARGO_NET_OFFLINE=true
 (cd driver && CARGO_TARGET_DIR=../.cache/driver-target cargo build --offline 2>&1 | tail -2)
-python3 rules/facts.py K1 K2 K3 K4 | head -1
+python3 rules/facts.py K1 K2 K3 K4 K5 | head -1
+# warm the stable-toolchain target dir used by the feature-matrix check
+./check C16 --tier quick > /dev/null 2>&1 || true
